@@ -508,5 +508,6 @@ func Scenarios() []History {
 	hs = append(hs, History{Reset: Ev{Name: "reset", RParams: smallParams(), Tag: "D9-module-service-call", RModSvc: true,
 		RBal: map[string]int64{"o1": 500, "c1": 100}}, Ops: ops})
 
+	hs = append(hs, Scenarios2()...)
 	return hs
 }
